@@ -356,7 +356,7 @@ Definition poll_branch (a : aid) (ro : rout) (s : sys) : sys :=
               match a_mbox x with
               | (o, KStop) :: tl => enter_stop a false CStopMark (take a (o, KStop) tl s)
               | (o, k) :: tl =>
-                  emit (EvHandleEnter a o)
+                  emit (EvHandleEnter a o k)
                     (upd_actor a (fun y => set_a_pc (PHandle o k)
                                              (set_a_ustate (HvHandle o :: a_ustate y) y))
                        (take a (o, k) tl s))
@@ -399,7 +399,8 @@ Definition handle_done (a : aid) (out : hout) (s : sys) : sys :=
                           | KAsk => upd_op o (fun p => match o_slot p with
                                                        | SlEmpty => set_o_slot (SlVal (hval out)) p
                                                        | _ => p end) s1
-                          | _ => emit (EvTellResult a o) s1 end in
+                          | KTell => emit (EvTellResult a o) s1
+                          | KStop => s1 end in
                 upd_actor a (set_a_pc PIdle) (metrics_record a s2)
             end
           else s
